@@ -60,22 +60,27 @@ AllObs == [a \in Requesters |-> ObsOf(a)]
 Log(e) == /\ hist' = Append(hist, [e EXCEPT !.obs = AllObs'])
           /\ steps' = steps + 1
 Ev(op, a, d) == [op |-> op, a |-> a, d |-> d, v |-> 0, r |-> "", b |-> 0, res |-> "", obs |-> <<>>]
+\* API routes of a mutation: by document id (request / collection API) or through a filter (UpdateWithFilter /
+\* DeleteWithFilter, filtered mutations); the permission rule is the same on every route
+Routes == {"docid", "filter", "save"}
 
 Create(a, d, v) ==
   /\ doc[d].st = "absent"
   /\ doc' = [doc EXCEPT ![d] = [st |-> "live", v |-> v, owner |-> a]]
   /\ UNCHANGED rel /\ Log([Ev("create", a, d) EXCEPT !.v = v, !.res = "ok"])
 \* an update attempt: takes effect iff the requester may update (and read) a live document
-Update(a, d, v) ==
+Update(a, d, v, route) ==
   /\ Exists(d)
   /\ LET ok == doc[d].st = "live" /\ CanUpdate(a, d) /\ CanRead(a, d) IN
      /\ doc' = IF ok THEN [doc EXCEPT ![d].v = v] ELSE doc
-     /\ UNCHANGED rel /\ Log([Ev("update", a, d) EXCEPT !.v = v, !.res = IF ok THEN "ok" ELSE "refused"])
-Delete(a, d) ==
+     /\ UNCHANGED rel /\ Log([Ev("update", a, d) EXCEPT !.v = v, !.r = route, !.res = IF ok THEN "ok" ELSE "refused"])
+Delete(a, d, route) ==
   /\ Exists(d)
   /\ LET ok == doc[d].st = "live" /\ CanDelete(a, d) /\ CanRead(a, d) IN
      /\ doc' = IF ok THEN [doc EXCEPT ![d].st = "deleted"] ELSE doc
-     /\ UNCHANGED rel /\ Log([Ev("delete", a, d) EXCEPT !.res = IF ok THEN "ok" ELSE "refused"])
+     /\ UNCHANGED rel /\ Log([Ev("delete", a, d) EXCEPT !.r = route, !.res = IF ok THEN "ok" ELSE "refused"])
+\* a schema patch (adding a field) and a restart change nothing about who may see or do what
+Patch == /\ UNCHANGED <<doc, rel>> /\ Log([Ev("patch", 0, 0) EXCEPT !.res = "ok"])
 \* relationship management: only the owner of a registered document succeeds
 Grant(a, d, r, b) ==
   /\ Exists(d) /\ a # Anon /\ b # a
@@ -89,8 +94,9 @@ Revoke(a, d, r, b) ==
      /\ UNCHANGED doc /\ Log([Ev("revoke", a, d) EXCEPT !.r = r, !.b = b, !.res = IF ok THEN "ok" ELSE "refused"])
 
 Next == /\ steps < MaxSteps
-        /\ \/ \E a \in Requesters, d \in Docs, v \in 1..MaxVal : Create(a, d, v) \/ Update(a, d, v)
-           \/ \E a \in Requesters, d \in Docs : Delete(a, d)
+        /\ \/ \E a \in Requesters, d \in Docs, v \in 1..MaxVal : Create(a, d, v) \/ (\E rt \in Routes : Update(a, d, v, rt))
+           \/ \E a \in Requesters, d \in Docs, rt \in {"docid", "filter"} : Delete(a, d, rt)
+           \/ Patch
            \/ \E a \in Actors, d \in Docs, r \in Rels, b \in Actors : Grant(a, d, r, b) \/ Revoke(a, d, r, b)
 Spec == Init /\ [][Next]_vars
 
